@@ -4,7 +4,7 @@
 From Coq Require Import ZArith NArith List Bool String Ascii Lia Arith.
 From ErgV Require Import Common.Sx CoreErg.Syntax gen.Prec.
 From ErgV Require CoreErg.Sem ExprParse.Model ExprParse.Spec ExprParse.Proofs.
-From ErgV Require Import NoCrash.Gen.
+From ErgV Require Import NoCrash.Gen NoCrash.GenOps.
 Import ListNotations.
 
 Module PS := ErgV.ExprParse.Spec.
